@@ -30,6 +30,22 @@ impl Iterator for CountIter {
   }
 }
 
+/// a collection whose `into_iter()` is user code with an effect of its own (counted like a closure call)
+#[derive(Clone)]
+struct CountColl {
+  n: i64,
+  calls: Arc<AtomicUsize>,
+}
+
+impl IntoIterator for CountColl {
+  type Item = Val;
+  type IntoIter = CountIter;
+  fn into_iter(self) -> CountIter {
+    self.calls.fetch_add(1, Ordering::SeqCst);
+    CountIter { i: 0, n: self.n, pulls: self.calls }
+  }
+}
+
 fn absurd(e: Infallible) -> i64 {
   match e {}
 }
@@ -114,6 +130,10 @@ macro_rules! indep_runner {
           "iter" => {
             let it = CountIter { i: 0, n: a[0].int(), pulls: c };
             observable::from_iter(it).on_error_map(absurd as fn(Infallible) -> i64).box_it()
+          }
+          "coll" => {
+            let coll = CountColl { n: a[0].int(), calls: c };
+            observable::from_iter(coll).on_error_map(absurd as fn(Infallible) -> i64).box_it()
           }
           h => panic!("bad lazy source {h}"),
         }
